@@ -10,6 +10,7 @@ From Coq Require Import List ZArith NArith Bool.
 From TF Require Import Base Query Index DB Spec proofs.IndexDefs proofs.BaseP proofs.RepP proofs.DBReadP proofs.DBRemoveP
      proofs.DBStepP proofs.DBRunP proofs.DBSpecP proofs.UpdateP ReadSem UpdateSem proofs.UpdateGenP.
 From TF Require gen.UpdateGen.
+From TF Require Import MemSem proofs.MemStoreGenP.
 Import ListNotations.
 
 Theorem C03_update_exact : forall E C norm, (forall p, wf_point p -> wf_point (norm p)) ->
@@ -101,6 +102,11 @@ Theorem C03_source_update_all_exact : forall E C norm, (forall p, wf_point p -> 
   end.
 Proof. exact gen_update_all_spec. Qed.
 
+(* class MemoryStorage translated from storages.py: an update's rewrite (every row staged by its own append, changed or not) stores the images in order *)
+Theorem C03_source_memory_storage_update_stores_the_images : forall s (f : point -> point),
+  rows (rewrite_with s (map (fun p => [f p]) (rows s))) = map f (rows s).
+Proof. exact gen_rewrite_maps. Qed.
+
 Print Assumptions C03_static_update_idempotent.
 Print Assumptions C03_update_exact.
 Print Assumptions C03_merge_key_by_key.
@@ -114,3 +120,4 @@ Print Assumptions C03_source_update_is_the_model.
 Print Assumptions C03_source_update_all_is_the_model.
 Print Assumptions C03_source_update_exact.
 Print Assumptions C03_source_update_all_exact.
+Print Assumptions C03_source_memory_storage_update_stores_the_images.
